@@ -30,7 +30,6 @@ import (
 	"github.com/anishathalye/porcupine"
 )
 
-
 type linEv struct {
 	Run   int  // index of the run
 	Write bool // write(w) or read -> w
